@@ -10,21 +10,29 @@ ID = "C06"
 TITLE = "Linear/categorical weight constraints enforce signs, orderings, dominance, norm"
 RULE = ("Hypothesis draws either a Linear configuration (1-8 inputs, thorough "
         "12; monotonicity vectors, acyclic monotonic / range dominance graphs "
-        "from a random linear extension - chains, diamonds, forests, shared "
-        "parents, duplicate edges -, positive-width input ranges, "
-        "normalization order None/1/2, units 1-3) or a CategoricalCalibration "
-        "configuration (1-8 buckets, acyclic ordering pairs, bounds incl. "
-        "zero width), a weight matrix (random mixture incl. ties and zeros, "
-        "certified-feasible, feasible plus one injected violation) and an entry "
-        "point (constraint object or the layer's kernel constraint). "
+        "- random edges of a linear extension, or constructed chains, stars, "
+        "diamond ladders, complete orders and chain closures over 3-8 nodes, "
+        "or all families on one multi-unit layer -, positive-width input "
+        "ranges 1e-3 .. 1e4, normalization order None/1/2/3/1.5/inf/"
+        "'euclidean', units 1-3) or a CategoricalCalibration configuration "
+        "(1-8 buckets, random or constructed acyclic ordering graphs, bounds "
+        "incl. zero width), a spelling of the hyper-parameters (ints / "
+        "strings / tuple / one scalar / None for monotonicities, None / 'none' "
+        "/ tuple for input bounds, tuple / list pairs), a weight matrix (random "
+        "mixture incl. ties and zeros, certified-feasible, feasible plus one "
+        "injected violation of 0.05-1 S or of 1e-4-1e-3 S), an entry "
+        "point (constraint object or the layer's kernel constraint) and an "
+        "execution mode (eager tensor, tf.Variable, inside tf.function, "
+        "float64 weights). "
         "Non-trivial: a constraint is configured and the input violates one "
         "by > 10x tolerance (or its norm differs from 1), or the case is a "
         "non-zero feasible matrix; distinct by SHA-1 of the case.")
 NT_FLOOR = 0.5
 BUDGET = {"quick": 900, "thorough": 12000}
 TECHNIQUE = ("property-based testing (Hypothesis): generated DAG configurations "
-             "and weights against a float64 inequality oracle; KKT-certified "
-             "feasible weights for the unchanged clause")
+             "and weights against a float64 inequality oracle; feasible weights "
+             "for the unchanged clause from an NNLS projection (KKT-certified "
+             "for categorical, moved into the cone exactly for Linear)")
 LEVEL_TEXT = ("Generated-input exploration of LinearConstraints and "
               "CategoricalCalibrationConstraints over random acyclic constraint "
               "graphs and weights: exact sign of every constrained weight, every "
@@ -33,21 +41,169 @@ LEVEL_TEXT = ("Generated-input exploration of LinearConstraints and "
 LEVEL_NOTE = ("Sign, ordering pairs and monotonic dominance are judged exactly "
               "(the projection only uses max/min/averages of the same values is "
               "not assumed: a 2e-5*S tolerance is used for averages), range "
-              "dominance and norms with tolerance. Zero-width input ranges are "
-              "the recorded finding F-C06-1 and generated only by the finding "
-              "probe. Trusted: NumPy/SciPy (NNLS answers are KKT-certified).")
+              "dominance and norms with tolerance. A column may keep a norm "
+              "other than 1 only when its sign-clipped input has max-abs <= 1e-7 "
+              "(the dominance averaging keeps at least a quarter of the largest "
+              "clipped weight, the library's threshold is 1e-8); norm orders are "
+              "the ones tf.norm documents for vectors. Zero-width input ranges "
+              "are the recorded finding F-C06-1 and generated only by the finding "
+              "probe. Trusted: NumPy/SciPy (categorical NNLS answers are "
+              "KKT-certified; Linear ones are made feasible exactly: sign clip, "
+              "weak scaled weights lowered to their dominants').")
+
+
+# ------------------------------------------------------------- generator
+GRAPH_KINDS = ["chain", "star_out", "star_in", "ladder", "complete", "closure"]
+# widths of range-dominance inputs (strictly positive: zero width is F-C06-1)
+RD_WIDTHS = [1e-3, 1e-3, 0.25, 1.0, 10.0, 1e4, 1e4]
+NORM_ORDS = [None, None, None, None, "inf", 3, 1.5, "euclidean"]
+MONO_SPELL = ["int", "int", "int", "str", "mixed", "tuple", "scalar", "scalar",
+              "none-arg"]
+BOUND_SPELL = ["list", "list", "none-str", "tuple", "tuple-none-str",
+               "explicit"]
+MONO_NAMES = {-1: "decreasing", 0: "none", 1: "increasing"}
+EXEC_MODES = ["eager", "eager", "eager", "eager", "variable", "function",
+              "float64"]
+
+
+@st.composite
+def _graph_pairs(draw, kind, nodes):
+  """Constructed DAG over `nodes` (a drawn order): pairs [first, second]."""
+  k = len(nodes)
+  if kind == "chain":
+    return [[nodes[i], nodes[i + 1]] for i in range(k - 1)]
+  if kind == "star_out":
+    return [[nodes[0], nodes[i]] for i in range(1, k)]
+  if kind == "star_in":
+    return [[nodes[i], nodes[-1]] for i in range(k - 1)]
+  if kind == "ladder":      # 1 - 2 - 1 - 2 - ... layers, fully connected
+    pairs, prev, i = [], [nodes[0]], 1
+    while i < k:
+      cur = nodes[i:i + (2 if len(prev) == 1 else 1)]
+      pairs += [[a, b] for a in prev for b in cur]
+      prev, i = cur, i + len(cur)
+    return pairs
+  if kind == "complete":
+    nodes = nodes[:6]
+    return [[nodes[i], nodes[j]] for i in range(len(nodes))
+            for j in range(i + 1, len(nodes))]
+  assert kind == "closure"
+  pairs = [[nodes[i], nodes[i + 1]] for i in range(k - 1)]
+  for i in range(k):
+    for j in range(i + 2, k):
+      if draw(st.booleans()):
+        pairs.append([nodes[i], nodes[j]])
+  return pairs
+
+
+def graph_depth(pairs):
+  """Longest path (in edges) of an acyclic pair list."""
+  succ = {}
+  for a, b in pairs:
+    succ.setdefault(a, []).append(b)
+  memo = {}
+
+  def depth(v):
+    if v not in memo:
+      memo[v] = 1 + max([depth(x) for x in succ.get(v, [])] + [-1])
+    return memo[v]
+  return max([depth(v) for v in sorted(succ)] + [0])
+
+
+def _grow(cfg, dims):
+  while cfg["dims"] < dims:
+    cfg["dims"] += 1
+    cfg["mono"].append(0)
+    cfg["input_min"].append(None)
+    cfg["input_max"].append(None)
+
+
+def _install(draw, cfg, fam, nodes, sign, pairs):
+  """Puts a constructed dominance graph of one family on `nodes`."""
+  other = "range_dom" if fam == "mono_dom" else "mono_dom"
+  cfg[other] = [p for p in cfg[other] if p[0] not in nodes and
+                p[1] not in nodes]
+  cfg[fam] = [list(p) for p in pairs]
+  for i in nodes:
+    cfg["mono"][i] = sign
+    if fam == "range_dom":
+      lo = S.f32(draw(st.sampled_from([-100.0, -1.0, 0.0, 0.5, 3.0])))
+      hi = S.f32(lo + draw(st.sampled_from(RD_WIDTHS)))
+      assert hi > lo
+      cfg["input_min"][i], cfg["input_max"][i] = lo, hi
+
+
+@st.composite
+def _linear(draw, big):
+  top = 12 if big else 8
+  cfg = draw(S.linear_config(max_dims=top))
+  shape = draw(st.sampled_from(["asdrawn", "asdrawn", "asdrawn", "graph",
+                                "graph", "allfam"]))
+  gkind = None
+  if shape == "graph":
+    fam = draw(st.sampled_from(["mono_dom", "range_dom"]))
+    gkind = draw(st.sampled_from(GRAPH_KINDS))
+    k = draw(st.integers(3, top))
+    _grow(cfg, k)
+    nodes = list(draw(st.permutations(list(range(cfg["dims"])))))[:k]
+    sign = 1 if fam == "mono_dom" else draw(st.sampled_from([1, -1]))
+    cfg[fam] = []
+    _install(draw, cfg, fam, nodes, sign, draw(_graph_pairs(gkind, nodes)))
+  elif shape == "allfam":
+    ka, kb = draw(st.integers(2, 3)), draw(st.integers(2, 3))
+    _grow(cfg, ka + kb)
+    perm = list(draw(st.permutations(list(range(cfg["dims"])))))
+    cfg["mono_dom"], cfg["range_dom"] = [], []
+    na, nb = perm[:ka], perm[ka:ka + kb]
+    kinds = ["chain", "star_out", "star_in", "complete"]
+    _install(draw, cfg, "mono_dom", na, 1,
+             draw(_graph_pairs(draw(st.sampled_from(kinds)), na)))
+    _install(draw, cfg, "range_dom", nb, draw(st.sampled_from([1, -1])),
+             draw(_graph_pairs(draw(st.sampled_from(kinds)), nb)))
+    cfg["norm"] = cfg["norm"] or draw(st.sampled_from([1, 2]))
+    cfg["units"] = draw(st.integers(2, 3))
+  entry = draw(st.sampled_from(["constraint", "layer"]))
+  spell = {"mono": draw(st.sampled_from(MONO_SPELL)),
+           "bounds": draw(st.sampled_from(BOUND_SPELL)),
+           "pairs": draw(st.sampled_from(["tuple", "tuple", "list"])),
+           "scalar_str": draw(st.booleans())}
+  # the one-value / None spellings exist for the layer only and need a constant
+  # vector: construct it (dominances keep their required directions).
+  if spell["mono"] == "scalar":
+    entry = "layer"
+    if len(set(cfg["mono"])) > 1:
+      # monotonic dominance needs increasing inputs; range dominance only
+      # needs both inputs of a pair to share a (non-zero) direction.
+      v = 1 if cfg["mono_dom"] else draw(st.sampled_from([-1, 1, 1]))
+      cfg["mono"] = [v] * cfg["dims"]
+  elif spell["mono"] == "none-arg":
+    entry = "layer"
+    cfg["mono"] = [0] * cfg["dims"]
+    cfg["mono_dom"], cfg["range_dom"] = [], []
+    cfg["norm"] = cfg["norm"] or draw(st.sampled_from([1, 2]))
+  norm_ord = draw(st.sampled_from(NORM_ORDS)) if cfg["norm"] else None
+  return cfg, entry, {"shape": shape, "graph": gkind, "spell": spell,
+                      "norm_ord": norm_ord}
 
 
 @st.composite
 def _case(draw, tier):
   big = tier == "thorough"
+  extra = {}
   if draw(st.booleans()):
-    cfg = draw(S.linear_config(max_dims=12 if big else 8))
+    cfg, entry, extra = draw(_linear(big))
     n = cfg["dims"]
     kind = "linear"
   else:
     n = draw(st.integers(1, 12 if big else 8))
-    pairs = draw(S.dag_pairs(n, max_edges=8)) if n >= 2 else []
+    gkind = draw(st.sampled_from(["random", "random"] + GRAPH_KINDS))
+    if n < 3 or gkind == "random":
+      gkind = None
+      pairs = draw(S.dag_pairs(n, max_edges=8)) if n >= 2 else []
+    else:
+      k = draw(st.integers(3, n))
+      nodes = list(draw(st.permutations(list(range(n)))))[:k]
+      pairs = draw(_graph_pairs(gkind, nodes))
     bm = draw(st.sampled_from(["none", "min", "max", "both"]))
     lo = S.f32(draw(st.sampled_from([-10.0, -1.0, 0.0, 0.5, 100.0])))
     width = S.f32(draw(st.sampled_from([0.0, 0.5, 1.0, 1000.0])))
@@ -55,16 +211,86 @@ def _case(draw, tier):
            "omin": lo if bm in ("min", "both") else None,
            "omax": S.f32(lo + width) if bm in ("max", "both") else None}
     kind = "categorical"
-  return {"kind": kind, "cfg": cfg,
-          "entry": draw(st.sampled_from(["constraint", "layer"])),
+    entry = draw(st.sampled_from(["constraint", "layer"]))
+    extra = {"graph": gkind,
+             "spell": {"pairs": draw(st.sampled_from(["tuple", "list"]))}}
+  case = {"kind": kind, "cfg": cfg, "entry": entry,
           "kmode": draw(st.sampled_from(["raw", "raw", "feasible",
-                                         "feasible+viol"])),
+                                         "feasible+viol", "feasible+tiny"])),
           "weights": draw(S.array_desc(shape=(n, cfg["units"]))),
-          "aux": draw(S.seeds)}
+          "aux": draw(S.seeds),
+          "exec": draw(st.sampled_from(EXEC_MODES))}
+  case.update(extra)
+  return case
 
 
 def strategy(tier):
   return _case(tier)
+
+
+# ----------------------------------------------------- spelling / kwargs
+def norm_order(case):
+  """Order handed to normalization_order (None when no norm is configured)."""
+  base = case["cfg"].get("norm") if case["kind"] == "linear" else None
+  if not base:
+    return None
+  o = case.get("norm_ord")
+  if o is None:
+    return base
+  return np.inf if o == "inf" else o
+
+
+def linear_kwargs(case):
+  """kwargs for Linear / LinearConstraints in the case's spelling.
+
+  Same configuration as S.linear_kwargs(cfg) (used when the case carries no
+  spelling, e.g. the recorded finding example); returns (kwargs, labels).
+  """
+  cfg, sp = case["cfg"], case.get("spell")
+  if not sp:
+    return S.linear_kwargs(cfg), []
+  mono, labels = list(cfg["mono"]), []
+  how = sp["mono"]
+  if how == "scalar" and (case["entry"] != "layer" or len(set(mono)) != 1):
+    how = "str"
+  if how == "none-arg" and (case["entry"] != "layer" or any(mono)):
+    how = "int"
+  kw = {}
+  if how == "scalar":
+    kw["monotonicities"] = MONO_NAMES[mono[0]] if sp["scalar_str"] else mono[0]
+  elif how == "none-arg":
+    kw["monotonicities"] = None
+  elif how == "str":
+    kw["monotonicities"] = [MONO_NAMES[m] for m in mono]
+  elif how == "mixed":
+    kw["monotonicities"] = [MONO_NAMES[m] if i % 2 else m
+                            for i, m in enumerate(mono)]
+  elif how == "tuple":
+    kw["monotonicities"] = tuple(mono)
+  else:
+    kw["monotonicities"] = mono
+  labels.append("spell:mono=" + how)
+  bs = sp["bounds"]
+  for key in ("input_min", "input_max"):
+    vals = list(cfg[key])
+    if all(v is None for v in vals) and bs != "explicit":
+      continue
+    if bs in ("none-str", "tuple-none-str", "explicit"):
+      vals = ["none" if v is None else v for v in vals]
+    kw[key] = tuple(vals) if bs in ("tuple", "tuple-none-str") else vals
+  if "input_min" in kw or "input_max" in kw:
+    labels.append("spell:bounds=" + bs)
+  conv = tuple if sp["pairs"] == "tuple" else list
+  if cfg["mono_dom"]:
+    kw["monotonic_dominances"] = [conv(p) for p in cfg["mono_dom"]]
+  if cfg["range_dom"]:
+    kw["range_dominances"] = [conv(p) for p in cfg["range_dom"]]
+  if cfg["mono_dom"] or cfg["range_dom"]:
+    labels.append("spell:pairs=" + sp["pairs"])
+  order = norm_order(case)
+  if order:
+    kw["normalization_order"] = order
+  return kw, labels
 
 
 # ---------------------------------------------------------------- oracle
@@ -108,33 +334,83 @@ def measures(kind, cfg, w):
 
 
 def _norm(w, order):
-  return float(np.sum(np.abs(w))) if order == 1 else float(
-      np.sqrt(np.sum(w * w)))
+  """Vector norm of the orders tf.norm documents (1, 2, inf, p > 0, name)."""
+  a = np.abs(np.asarray(w, np.float64))
+  if order == 1:
+    return float(np.sum(a))
+  if order in (2, "euclidean"):
+    return float(np.sqrt(np.sum(a * a)))
+  if order == np.inf:
+    return float(np.max(a)) if a.size else 0.0
+  return float(np.sum(a ** float(order)) ** (1.0 / float(order)))
 
 
-def feasible_weights(kind, cfg, raw, aux):
+def _exactly_feasible(cfg, w):
+  """Moves a nearly feasible Linear column (float64) INTO the cone.
+
+  The NNLS answer is feasible up to its certification tolerance (1e-8 S in
+  weight space); with input ranges 1e-3 .. 1e4 the same error is up to 1e7
+  times larger in the range-scaled space the library projects in, so it is
+  removed here: exact sign clip, then every weak input's scaled weight is
+  lowered to the smallest scaled weight of its dominant inputs (dominant
+  inputs first).  The result is feasible up to float64 rounding.
+  """
+  mono = np.array(cfg["mono"], np.float64)
+  w = np.where(mono == 1, np.maximum(w, 0.0),
+               np.where(mono == -1, np.minimum(w, 0.0), w))
+  for fam in ("mono_dom", "range_dom"):
+    pairs = [tuple(p) for p in cfg[fam]]
+    if not pairs:
+      continue
+    nodes = sorted(set(i for p in pairs for i in p))
+    coef = {i: 1.0 if fam == "mono_dom" else mono[i] * (
+        cfg["input_max"][i] - cfg["input_min"][i]) for i in nodes}
+    s = {i: w[i] * coef[i] for i in nodes}
+    indeg = {i: sum(1 for p in set(pairs) if p[1] == i) for i in nodes}
+    ready = [i for i in nodes if indeg[i] == 0]
+    changed = set()
+    while ready:
+      v = ready.pop()
+      for a, b in sorted(set(pairs)):
+        if a == v:
+          if s[b] > s[v]:
+            s[b] = s[v]
+            changed.add(b)
+          indeg[b] -= 1
+          if indeg[b] == 0:
+            ready.append(b)
+    for i in changed:
+      w[i] = s[i] / coef[i]
+  return w
+
+
+def feasible_weights(kind, cfg, raw, aux, order=None):
   rs = np.random.RandomState(aux)
   n, units = raw.shape
   rows = rows_for(kind, cfg)
   a = np.zeros((len(rows), n))
   for k, (_, r) in enumerate(rows):
+    top = max(abs(c) for c in r.values())   # same cone, rows of unit size
     for i, c in r.items():
-      a[k, i] = c
+      a[k, i] = c / top
   out = np.zeros((n, units))
   for u in range(units):
     w0 = raw[:, u].astype(np.float64)
     if kind == "linear":
+      # the NNLS answer only has to be NEAR the cone (certified or not): the
+      # next step puts it inside exactly.
       w, info = R.project_cone(a, w0)
-      if not info["certified"]:
-        return None
-      order = cfg["norm"]
+      w = _exactly_feasible(cfg, w)
       if order:
         nrm = _norm(w, order)
         if nrm < 1e-3 * max(1.0, float(np.max(np.abs(w0)))):
           # projection collapsed: use a strictly feasible direction instead.
-          w = np.array([float(m) for m in cfg["mono"]]) * rs.uniform(0.5, 1)
+          # (unconstrained inputs get a random sign: any value is feasible)
+          w = np.array([float(m) if m else float(rs.choice([-1.0, 1.0]))
+                        for m in cfg["mono"]]) * rs.uniform(0.5, 1)
           for _ in range(3):
             w, _ = R.project_cone(a, w + 0.0)
+          w = _exactly_feasible(cfg, w)
           nrm = _norm(w, order)
           if nrm < 1e-6:
             return None
@@ -165,7 +441,9 @@ def feasible_weights(kind, cfg, raw, aux):
   return w32
 
 
-def inject_violation(kind, cfg, w32, aux):
+def inject_violation(kind, cfg, w32, aux, tiny=False):
+  """One constraint row of one unit is broken: by 0.05-1 S, or (tiny) by a
+  measure of 1e-4 - 1e-3 S, i.e. 5 - 50 tolerances."""
   rs = np.random.RandomState(aux + 1)
   rows = rows_for(kind, cfg)
   if not rows:
@@ -176,38 +454,57 @@ def inject_violation(kind, cfg, w32, aux):
   sc = max(1.0, float(np.max(np.abs(w))))
   idx = max(r, key=lambda i: r[i])
   val = sum(c * w[i, u] for i, c in r.items())
-  w[idx, u] -= (val + sc * abs(r[idx]) * rs.uniform(0.05, 1.0)) / r[idx]
+  if tiny:
+    unit = max(1.0, max(abs(c) for c in r.values())) if fam == "range_dom" else 1.0
+    w[idx, u] -= (val + sc * unit * rs.uniform(1e-4, 1e-3)) / r[idx]
+  else:
+    w[idx, u] -= (val + sc * abs(r[idx]) * rs.uniform(0.05, 1.0)) / r[idx]
   return w.astype(np.float32)
 
 
 def apply_entry(case, w32):
+  """Result of the constraint on w32 through the case's entry point and
+  execution mode (eager tensor, tf.Variable, inside tf.function, float64)."""
   import tensorflow as tf
   import tensorflow_lattice as tfl
   cfg = case["cfg"]
+  mode = case.get("exec", "eager")
+  dtype = "float64" if mode == "float64" else "float32"
+  lkw = {"dtype": dtype} if mode == "float64" else {}
   if case["kind"] == "linear":
-    kw = S.linear_kwargs(cfg)
+    kw, _ = linear_kwargs(case)
     if case["entry"] == "constraint":
       c = tfl.linear_layer.LinearConstraints(**kw)
-      return c(tf.constant(w32)).numpy()
-    layer = tfl.layers.Linear(num_input_dims=cfg["dims"], units=cfg["units"],
-                              **kw)
-    layer.build((None, cfg["dims"]) if cfg["units"] == 1 else
-                (None, cfg["units"], cfg["dims"]))
-    if layer.kernel.constraint is None:
-      return w32
-    return layer.kernel.constraint(tf.constant(w32)).numpy()
-  mon = [tuple(p) for p in cfg["pairs"]] or None
-  if case["entry"] == "constraint":
-    c = tfl.categorical_calibration_layer.CategoricalCalibrationConstraints(
-        output_min=cfg["omin"], output_max=cfg["omax"], monotonicities=mon)
-    return c(tf.constant(w32)).numpy()
-  layer = tfl.layers.CategoricalCalibration(
-      num_buckets=cfg["buckets"], units=cfg["units"], output_min=cfg["omin"],
-      output_max=cfg["omax"], monotonicities=mon)
-  layer.build((None, cfg["units"]))
-  if layer.kernel.constraint is None:
+    else:
+      kw.update(lkw)
+      layer = tfl.layers.Linear(num_input_dims=cfg["dims"],
+                                units=cfg["units"], **kw)
+      layer.build((None, cfg["dims"]) if cfg["units"] == 1 else
+                  (None, cfg["units"], cfg["dims"]))
+      c = layer.kernel.constraint
+  else:
+    conv = list if (case.get("spell") or {}).get("pairs") == "list" else tuple
+    mon = [conv(p) for p in cfg["pairs"]] or None
+    if case["entry"] == "constraint":
+      c = tfl.categorical_calibration_layer.CategoricalCalibrationConstraints(
+          output_min=cfg["omin"], output_max=cfg["omax"], monotonicities=mon)
+    else:
+      layer = tfl.layers.CategoricalCalibration(
+          num_buckets=cfg["buckets"], units=cfg["units"],
+          output_min=cfg["omin"], output_max=cfg["omax"], monotonicities=mon,
+          **lkw)
+      layer.build((None, cfg["units"]))
+      c = layer.kernel.constraint
+  if c is None:
     return w32
-  return layer.kernel.constraint(tf.constant(w32)).numpy()
+  w = w32.astype(dtype)
+  if mode == "variable":
+    return c(tf.Variable(w)).numpy()
+  if mode == "function":
+    fn = tf.function(lambda t: c(t), autograph=False,
+                     input_signature=[tf.TensorSpec(w.shape, dtype)])
+    return fn(tf.constant(w)).numpy()
+  return c(tf.constant(w)).numpy()
 
 
 def run_case(case):
@@ -218,29 +515,53 @@ def run_case(case):
   raw = S.materialize(case["weights"], (n, units))
   w32, feasible = raw, False
   if case["kmode"] != "raw":
-    fw = feasible_weights(kind, cfg, raw, case["aux"])
+    fw = feasible_weights(kind, cfg, raw, case["aux"], norm_order(case))
     if fw is None:
       out.discard = "no-certified-feasible-weights"
       return out
     w32, feasible = fw, True
-    if case["kmode"] == "feasible+viol":
-      w32 = inject_violation(kind, cfg, fw, case["aux"])
+    if case["kmode"] in ("feasible+viol", "feasible+tiny"):
+      w32 = inject_violation(kind, cfg, fw, case["aux"],
+                             tiny=case["kmode"] == "feasible+tiny")
       feasible = bool(np.array_equal(w32, fw))
-  order = cfg.get("norm") if kind == "linear" else None
+  order = norm_order(case)
   out.label(kind, "entry:" + case["entry"], "kernel:" + case["kmode"],
-            "units:%d" % units, "n:%d" % n)
+            "units:%d" % units, "n:%d" % n,
+            "exec:" + case.get("exec", "eager"))
   if kind == "linear":
+    out.label(*linear_kwargs(case)[1])
     if cfg["mono_dom"]:
       out.label("mono-dominance")
     if cfg["range_dom"]:
       out.label("range-dominance")
-    if order:
+      rd = sorted(set(i for p in cfg["range_dom"] for i in p))
+      wd = [cfg["input_max"][i] - cfg["input_min"][i] for i in rd]
+      if cfg["mono"][rd[0]] == -1:
+        out.label("range-dominance:decreasing")
+      if min(wd) > 0 and min(wd) < 5e-3:
+        out.label("range-width<=1e-3")
+      if min(wd) > 0 and max(wd) / min(wd) >= 1e6:
+        out.label("range-ratio>=1e6")
+    if cfg["mono_dom"] and cfg["range_dom"] and order and units > 1:
+      out.label("all-families")
+    if order in (1, 2):
       out.label("norm:%d" % order)
+    elif order:
+      out.label("norm:%s" % order)
+    graph = cfg["mono_dom"] + cfg["range_dom"]
   else:
     if cfg["pairs"]:
       out.label("ordering-pairs")
+      if (case.get("spell") or {}).get("pairs") == "list":
+        out.label("spell:pairs=list")
     if cfg["omin"] is not None or cfg["omax"] is not None:
       out.label("bounded")
+    graph = cfg["pairs"]
+  if case.get("graph"):
+    out.label("graph:" + case["graph"])
+  if graph:
+    dep = graph_depth(graph)
+    out.label("graph-depth:%s" % (dep if dep < 5 else "5+"))
   w64 = w32.astype(np.float64)
   s_in = scale_of(w64, cfg.get("omin"), cfg.get("omax"))
   in_viol = 0.0
@@ -272,12 +593,27 @@ def run_case(case):
     if order:
       nrm_in = _norm(w64[:, u], order)
       nrm = _norm(res[:, u], order)
+      # "numerically zero" is decided on the INPUT: the sign-clipped column.
+      # Dominance averaging keeps >= 1/4 of its largest entry and every norm
+      # order >= 1 is >= the largest entry, so above 1e-7 the library's own
+      # threshold (1e-8) cannot apply and the result must have norm 1.
+      mono = np.array(cfg["mono"])
+      col = w64[:, u]
+      clipped = np.where(mono == 1, np.maximum(col, 0),
+                         np.where(mono == -1, np.minimum(col, 0), col))
+      top_in = float(np.max(np.abs(clipped)))
       out.checks += 1
       if nrm > 1e-6 and abs(nrm - 1.0) > 1e-5:
-        out.violate("norm of order %d is %.8g, not 1, in unit %d" %
+        out.violate("norm of order %s is %.8g, not 1, in unit %d" %
                     (order, nrm, u), kind="norm", **sig)
+      elif nrm <= 1e-6 and top_in > 1e-7:
+        out.violate("norm of order %s is %.3g in unit %d although the "
+                    "sign-clipped input column has max-abs %.3g > 1e-7" %
+                    (order, nrm, u, top_in), kind="norm", **sig)
       elif nrm <= 1e-6:
         out.label("norm:numerically-zero")
+      elif top_in <= 1e-5:
+        out.label("norm:tiny-input-normalised")
       if abs(nrm_in - 1.0) > 1e-3:
         in_viol = max(in_viol, 1.0 * s_in)
   if feasible:
